@@ -297,7 +297,11 @@ class ConcCtx:
 class Explorer:
     """decision-prefix DFS over the symbolic branches of one harness"""
 
-    def __init__(self, harness, params=None, max_paths=400, max_depth=400, branch_timeout_ms=5000):
+    def __init__(self, harness, params=None, max_paths=400, max_depth=400, branch_timeout_ms=5000, remote_feasibility=False):
+        # remote_feasibility: branch-feasibility queries go to the killable solver process (for path conditions with
+        # nonlinear constraints, where an in-process z3 may ignore its timeout); unknown / killed = explore the branch
+        self.remote = remote_feasibility
+        self.client = None
         self.h = harness
         self.params = params or {}
         self.max_paths = max_paths
@@ -370,7 +374,13 @@ class Explorer:
         t = time.time()
         r.solver.push()
         r.solver.add(zc)
-        res = str(r.solver.check())
+        if self.remote:
+            if self.client is None:
+                from .solver_server import SolverClient
+                self.client = SolverClient()
+            res, _ = self.client.ask(r.solver.to_smt2(), self.bt, None)
+        else:
+            res = str(r.solver.check())
         r.solver.pop()
         self.queries += 1
         self.solver_time += time.time() - t
